@@ -92,14 +92,15 @@ def jobs(tier):
     mod = _mod()
     J = []
     A = lambda mk, **kw: J.append(Job("A", mk, max_states=60000 if quick else 1000000, **kw))
-    B = lambda mk, **kw: J.append(Job("B", mk, cycles=2500 if quick else 20000, runs=1 if quick else 4, **kw))
+    B = lambda mk, **kw: J.append(Job("B", mk, cycles=2000 if quick else 20000, runs=1 if quick else 4, **kw))
     A(lambda: c17lib.EncoderInst(mod, 1, False))
     A(lambda: c17lib.EncoderInst(mod, 1, True))
-    A(lambda: c17lib.EncoderInst(mod, 2, False))
+    A(lambda: c17lib.EncoderInst(mod, 2, False, symbols=c17lib.SYMS4[:1] + c17lib.SYMS4[2:] if quick else c17lib.SYMS4))
     A(lambda: c17lib.DecoderInst(mod, False))
     A(lambda: c17lib.DecoderInst(mod, True))
     A(lambda: c17lib.make_stream_inst("enc", mod, 1, "A"))
     A(lambda: c17lib.make_stream_inst("dec", mod, 1, "A"))
+    A(lambda: c17lib.make_stream_inst("enc", mod, 2, "A"))
     if not quick:
         A(lambda: c17lib.make_stream_inst("codec", mod, 1, "A"))
         A(lambda: c17lib.EncoderInst(mod, 2, True))
